@@ -232,19 +232,21 @@ class Grid(col.MutableSequence):
             raise TypeError('value must be a dict')
         for val in value.values():
             self._detect_or_validate(val)
-        if "id" in self._row[index]:
-            self._index.pop(self._row[index]['id'], None)
+        old = self._row[index]
         self._row[index] = value
-        if "id" in value:
-            self._index[str(value["id"])] = value
+        if ("id" in old) or ("id" in value):
+            # Rebuild, the replaced row may have shadowed a duplicate id
+            self.reindex()
 
     def __delitem__(self, index):
         '''
         Delete the row at index.
         '''
-        if "id" in self._row[index]:
-            self._index.pop(self._row[index]['id'], None)
+        old = self._row[index]
         del self._row[index]
+        if isinstance(index, slice) or ("id" in old):
+            # Rebuild, a deleted row may have shadowed a duplicate id
+            self.reindex()
 
     def insert(self, index, value):
         '''
@@ -255,9 +257,9 @@ class Grid(col.MutableSequence):
         for val in value.values():
             self._detect_or_validate(val)
         self._row.insert(index, value)
-        if "id" in value:
-            if not self._index:
-                self.reindex()
+        if self._index is None:
+            self.reindex()
+        elif "id" in value:
             self._index[str(value["id"])] = value
 
     def reindex(self):
@@ -273,9 +275,7 @@ class Grid(col.MutableSequence):
     def extend(self, values):
         super(Grid, self).extend(values)  # Python 2 compatible :-(
         # super().extend(values)  # Python 3+ :-)
-        for item in self._row:
-            if "id" in item:
-                self._index[str(item["id"])] = item
+        # (the index is maintained by insert())
 
     def filter(self, filter, limit=0):
         '''
